@@ -26,7 +26,11 @@
 (*            ck, cx: the evaluation configuration <<interp, route, extra>> of  *)
 (*            spec/KTableHistory.tla the k-table twin and the cross-section     *)
 (*            twin were evaluated under: the relation is claimed for twins      *)
-(*            under the SAME configuration of the alphabet only                 *)
+(*            under the SAME configuration of the alphabet only;                *)
+(*            lk, lx: the contribution lists (spec/KTableHistory.tla: "k" the   *)
+(*            molecular absorption, "c1".."c3" continuum contributions, in the  *)
+(*            order the model holds them) of the two twins: the relation is     *)
+(*            claimed for twins holding the SAME list only                      *)
 EXTENDS Integers, Sequences, TLC, Json, IOUtils, TLCExt, Dyad
 VARIABLE l
 TraceLog == ndJsonDeserialize(IOEnv.TRACE_FILE)
@@ -50,7 +54,11 @@ BoundsOk(e) == e.lo >= e.S - Tol /\ e.hi <= e.S + Tol
 TwinTol == 1000
 CfgOk(c)  == /\ Len(c) = 3 /\ c[1] \in {"linear", "exp"} /\ c[2] \in {"global", "api", "ctor", "setter"}
              /\ c[3] \in {"none", "stream", "deactive"}
+ListOk(L) == /\ Len(L) >= 1 /\ \A i \in 1..Len(L) : L[i] \in {"k", "c1", "c2", "c3"}
+             /\ \A i, j \in 1..Len(L) : L[i] = L[j] => i = j
+             /\ \E i \in 1..Len(L) : L[i] = "k"
 TwinOk(e) == /\ CfgOk(e.ck) /\ e.ck = e.cx
+             /\ ListOk(e.lk) /\ e.lk = e.lx
              /\ e.nk = e.nx /\ e.nk > 0 /\ e.gdev = 0 /\ e.ng = e.ngw
              /\ (e.nreq = 0 \/ e.nk = e.nreq)
              /\ CASE e.rel = "equal"  -> e.dev >= 0 /\ e.dev <= TwinTol + e.slack
